@@ -362,6 +362,12 @@ class TenantWorld(object):
             ev['faults'].append({'kind': 'F3'})
         elif rng.random() < rates.get('budget', 0):
             ev['budget'] = True
+        if tp['bp']['cls'] == 'SumGrader' and ev.get('icls') == 'hostile':
+            # student-controlled summation limits: always count steps (a hang would otherwise
+            # only be caught by the wall-clock watchdog)
+            ev['budget'] = True
+            ev.pop('headroom', None)
+            ev['faults'] = [f for f in ev['faults'] if f['kind'] != 'F3']
         if rng.random() < rates.get('F4', 0):
             ev['rng'] = 'edge'
         return ev
@@ -561,7 +567,10 @@ class Run(object):
                 o, raw = outcome2(lambda: seams.call_with_headroom(fn, headroom))
             elif budget:
                 try:
-                    (o, raw), steps = seams.run_with_budget(lambda: outcome2(fn), self.prof.get('budget', 5000000))
+                    limit = self.prof.get('budget', 5000000)
+                    if type(g).__name__ == 'SumGrader':
+                        limit = min(limit, 2000000)
+                    (o, raw), steps = seams.run_with_budget(lambda: outcome2(fn), limit)
                     extra['steps'] = steps
                 except seams.BudgetExceeded as over:
                     o, raw = {'k': 'exc', 'cls': 'BudgetExceeded', 'msg': str(over), 'fam': 'other'}, None
@@ -873,7 +882,11 @@ class Run(object):
     def judge_family(self, i, ev, tp, g, o, x, inp):
         cls = tp['bp']['cls']
         if o['k'] == 'exc' and o['cls'] == 'BudgetExceeded':
-            self.violate('I-budget', i, cls, 'call did not finish within its step budget: input=%r' % (ev['input'],))
+            sig = 'I-budget|%s' % cls
+            if cls == 'SumGrader' and self.huge_limit(inp):
+                sig = 'I-budget|SumGrader|huge-finite-limit'
+            self.violate('I-budget', i, cls, 'call did not finish within its step budget: input=%r' % (ev['input'],),
+                         sig=sig)
             return
         debug_on = bool(g.config.get('debug'))
         if debug_on:
@@ -920,9 +933,23 @@ class Run(object):
             else:
                 subs = inp if isinstance(inp, list) else [inp]
                 if o['cls'] != 'StudentFacingError' or not o['msg'].startswith('Invalid Input: Could not check input') \
-                        or not all(isinstance(s, str) and s in o['msg'] for s in subs):
+                        or not all(isinstance(s, str) and core.norm_text(s) in o['msg'] for s in subs):
                     return bad('unanticipated failure was not replaced by the generic error naming the submission')
         return None
+
+    def huge_limit(self, inp):
+        """Does a submitted summation limit evaluate to a finite number of huge magnitude?"""
+        calc = __import__('mitxgraders.helpers.calc', fromlist=['x'])
+        if not isinstance(inp, list):
+            return False
+        for text in inp[:2]:
+            try:
+                val = calc.evaluator(text, allow_inf=True)[0]
+                if isinstance(val, (int, float)) and val == val and abs(val) != float('inf') and abs(val) > 5e4:
+                    return True
+            except Exception:  # pylint: disable=broad-except
+                continue
+        return False
 
     def judge_attempt(self, i, ev, tp, g, o, gid, expect, inp, prime):
         """C17(b): result == result without attempt credit, positive grades scaled by schedule(max(n,1))."""
